@@ -628,9 +628,10 @@ class SwitchController(MpfController):
         if switch in self._active_timed_switches:
             for k in list(self._active_timed_switches[switch].keys()):
                 timed_entry = self._active_timed_switches[switch][k]
-                for dummy_key, entry in enumerate(timed_entry):
-                    if entry.state == state and entry.ms == ms and entry.callback == callback:
-                        del self._active_timed_switches[switch][k][dummy_key]
+                # rebuild the list: deleting while enumerating skips the entry after a match
+                self._active_timed_switches[switch][k] = [
+                    entry for entry in timed_entry
+                    if not (entry.state == state and entry.ms == ms and entry.callback == callback)]
 
     def log_active_switches(self, **kwargs):
         """Write out entries to the INFO log file of all switches that are currently active."""
